@@ -16,7 +16,7 @@ def _c04(prop, tier, seed, t0):
 
 CHECKS["C04"] = _c04
 
-HOOK_COMMITS = ["24eb488", "1e3405d"]
+HOOK_COMMITS = ["24eb488", "1e3405d", "ba08ebd"]
 NOT_APPLICABLE = {}
 
 _TRACE_NOTE = ("Trusted: the TLA+ rules (spec/Universe.tla, Conflict.tla, Trace_Solve.tla) state the property; TLC evaluates them; "
@@ -516,7 +516,8 @@ CHECKS["C11"] = _c10
 # its use by the solver (wide universes)
 # ---------------------------------------------------------------------------
 def _c15(prop, tier, seed, t0):
-    rep = check.graph_replay(prop, "amo", "MC_AtMostOne.tla", "MC_AtMostOne.cfg", "amo", [], workers=2)
+    cfg = "MC_AtMostOne.cfg" if tier == "quick" else "MC_AtMostOne_thorough.cfg"
+    rep = check.graph_replay(prop, "amo", "MC_AtMostOne.tla", cfg, "amo", [], workers=2)
     extra_v = []
     if rep.get("mismatches", 0):
         d = os.path.join(vlib.REPLAYS, prop)
@@ -526,7 +527,7 @@ def _c15(prop, tier, seed, t0):
                   open(path, "w"))
         extra_v.append((f"{rep['mismatches']} transitions of AtMostOne.tla are not reproduced by the encoder", path))
     info = {"atmostone_states": rep.get("tlc_states", 0), "atmostone_transitions_replayed": rep.get("edges", 0),
-            "atmostone_max_candidates": 40}
+            "atmostone_max_candidates": 270 if tier == "quick" else 1030}
     rc = check.trace_check(prop, tier, seed, check.TRACE_PLANS[prop], t0, extra_cov=info)
     for (msg, path) in extra_v:
         print(f"VIOLATION property={prop} replay={path}")
@@ -536,7 +537,7 @@ def _c15(prop, tier, seed, t0):
 
 
 CHECKS["C15"] = _c15
-META["C15"] = _m("AtMostOne.tla (transcription of AtMostOnceTracker::add) is model checked for n <= 40 candidates (Excl: any two candidates clash on some helper, Cons: every single candidate is selectable, Minimal) and the clause set after every registration is compared with what the real encoder emits (hook stream). Generated wide universes - all candidates known up front, revealed group by group along a chain, and revealed late under backtracked alternatives - require candidate pairs (Unsolvable per the oracle) and single candidates; verdict, validity and the final assignment against the clause database are judged by TLC.", "6 C15", "TLC model checking of AtMostOne.tla + replay against the encoder's clause stream; TLA+ trace validation of wide-package problems")
+META["C15"] = _m("AtMostOne.tla (transcription of AtMostOnceTracker::add) is model checked for n <= 270 (quick) / 1030 (thorough) candidates (Minimal at every n; Excl: any two candidates clash on some helper, Cons: every single candidate is selectable, Complete - evaluated for every n <= 40 and around every power of two beyond, where a helper variable is added) and the clause set after every registration is compared with what the real encoder emits (hook stream). Generated wide universes - all candidates known up front, revealed group by group along a chain, and revealed late under backtracked alternatives - require candidate pairs (Unsolvable per the oracle) and single candidates; verdict, validity and the final assignment against the clause database are judged by TLC.", "6 C15", "TLC model checking of AtMostOne.tla + replay against the encoder's clause stream; TLA+ trace validation of wide-package problems")
 for _p, _t in (("C10", "TLA+ trace validation (TLC) of executions under controlled completion orders: exhaustive DFS over all orders of small universes, FIFO/LIFO/random on larger ones"),
                ("C11", "TLA+ trace validation (TLC) of quiescent pending sets under exhaustively enumerated and sampled completion orders")):
     META[_p]["technique"] = _t
